@@ -695,5 +695,11 @@ def trial_updated(ctx):
     return res
 
 
-RULES = [trial_updated, sampler_rng, index_edit, c01_setters, c01_init_stores, c14_update, trial_record, final_reset, reset_before_apply, reset_covers, one_sample,
+def c04_parax_centred(ctx):
+    """shared with C04: a decentre perturbation does not corrupt the paraxial operands"""
+    from .C04 import parax_centred as _r
+    return _r(ctx)
+
+
+RULES = [c04_parax_centred, trial_updated, sampler_rng, index_edit, c01_setters, c01_init_stores, c14_update, trial_record, final_reset, reset_before_apply, reset_covers, one_sample,
          target_default]
